@@ -76,9 +76,20 @@ def generate(seed, tier, index):
             # same rendering as #0, other output units: only the scale of the numbers may change
             sysd, pus = scripts[0]["system"], scripts[0]["parent_us"]
             style = "same-as-0-other-output-units"
-        scripts.append({"system": sysd, "parent_us": pus, "script": kw,
-                        "phys": {"spec": spec, "sp": sp, "us": us, "eu": gen.engine_units(us, "euler"), "kind": "euler",
-                                 "style": style}})
+        ent = {"system": sysd, "parent_us": pus, "script": kw,
+               "phys": {"spec": spec, "sp": sp, "us": us, "eu": gen.engine_units(us, "euler"), "kind": "euler",
+                        "style": style}}
+        if r >= 1 and rf.chance(0.25):
+            # the script is constructed in one units system and switched to another before it is run
+            for attempt2 in range(10):
+                us2 = gen.draw_us(base.sub("post", r, attempt2))
+                if gen.boundary_numbers_ok(spec, us2):
+                    ent["post_units"] = us2
+                    ent["phys"]["us"] = us2
+                    ent["phys"]["eu"] = gen.engine_units(us2, "euler")
+                    ent["phys"]["style"] = style + "+units-reassigned"
+                    break
+        scripts.append(ent)
         ops = [["sysinfo"], ["setup"], ["observe"]]
         if coobs:
             ops.append(["kinetics", entries, False, gen.draw_us(ru)])
